@@ -586,6 +586,34 @@ func (d *c16Deploy) runPublicKeySwitch(ct *rlwe.Ciphertext) bool {
 	if !ok {
 		return false
 	}
+	// a share made for the same ciphertext at a lower level (another instance of the protocol) that reaches
+	// this aggregation is refused, as the secret-key switching protocol does, not added
+	if level > 0 && ch.Chance("misrouted-share", 1, 3) {
+		low := ct.CopyNew()
+		low.Resize(low.Degree(), level-1)
+		fs := base.AllocateShare(level - 1)
+		pk, site, msg := core.Protect(func() { base.GenShare(d.sks[0], pkOut, low, &fs) })
+		if pk {
+			ctx.Fail("panic", "PublicKeySwitch.GenShare", "GenShare panicked in %s: %s", site, msg)
+			return false
+		}
+		ctx.Count("fault.share-misrouted", 1)
+		for order := 0; order < 2; order++ {
+			a, b := any(shares[0]), any(&fs)
+			if order == 1 {
+				a, b = b, a
+			}
+			outS := base.AllocateShare(level)
+			var err error
+			pk, site, msg := core.Protect(func() { err = ops.agg(ops.clone(a), ops.clone(b), &outS) })
+			ctx.Count("oracle.misrouted-share-rejected", 1)
+			if !pk && err == nil {
+				ctx.Fail("mismatch", "PublicKeySwitch.AggregateShares|combined", "a share of level %d was added to a share of level %d without an error (operand order %d)", level-1, level, order)
+				return false
+			}
+			_, _ = site, msg
+		}
+	}
 	want := decryptRaw(params, ct, d.ideal)
 	out := rlwe.NewCiphertext(params, 1, level)
 	in := ct
@@ -1091,7 +1119,7 @@ func (sc *c16BGV) runRefresh(d *c16Deploy, ct *rlwe.Ciphertext, m []uint64, inNo
 			return &multiparty.RefreshShare{EncToShareShare: multiparty.KeySwitchShare{Value: *x.EncToShareShare.Value.CopyNew()},
 				ShareToEncShare: multiparty.KeySwitchShare{Value: *x.ShareToEncShare.Value.CopyNew()}, MetaData: *x.MetaData.CopyNew()}
 		},
-		alloc: func() any { s := mt0.AllocateShare(minLevel, outLevel); s.MetaData = *ct.MetaData.CopyNew(); return &s },
+		alloc: func() any { s := mt0.AllocateShare(minLevel, outLevel); return &s },
 		agg: func(a, b, out any) error {
 			err := mt0.AggregateShares(*a.(*multiparty.RefreshShare), *b.(*multiparty.RefreshShare), out.(*multiparty.RefreshShare))
 			return err
@@ -1113,9 +1141,11 @@ func (sc *c16BGV) runRefresh(d *c16Deploy, ct *rlwe.Ciphertext, m []uint64, inNo
 	}
 	ra := agg.(*multiparty.RefreshShare)
 	if !ra.MetaData.Equal(ct.MetaData) {
-		// the aggregate may come out of a fresh output whose metadata nobody set; the finaliser restores it
-		ra.MetaData = *ct.MetaData.CopyNew()
-		ctx.Count("probe.aggregate-metadata-restored-by-caller", 1)
+		// every share carries the metadata of the ciphertext; the aggregate, whatever receiver it was formed in
+		// (one of the operands or a newly allocated share, as an aggregator without a share of its own does),
+		// is a share of the same refresh and the finalisation checks its metadata
+		ctx.Fail("aggregate", name+"|RefreshShare-metadata-lost", "the aggregate of %d refresh shares does not carry the metadata of the shares (scale %v vs %v): Transform / Finalize would reject it", d.n, &ra.MetaData.Scale.Value, &ct.MetaData.Scale.Value)
+		return false
 	}
 	// budget of the decryption step (at minLevel) and of the re-encryption (at outLevel)
 	b1 := new(big.Int).Mul(d.shareB, big.NewInt(int64(d.n)))
